@@ -34,6 +34,9 @@ Core-only executable model. It mirrors the code that exists (oddities included):
   `lockRequestId`; a result whose RequestId is the latest one clears `latestCommandType`.
 * a frame the reader goroutine of a freshly opened link reads before `CheckClient` has attached the link object to its
   connection is dropped unseen (`Event.unattached`: in practice the answer to the INIT that `Open` re-sends).
+* will commands (WILL_LOCK / WILL_UNLOCK frames, text `… WILL 1`) are queued on the connection whatever the role; when a
+  connection that has a wrapper closes, `Transparency*ServerProtocol.Close` writes them to the leader over the link
+  `CheckClient` yields — and drops them when there is none (also on a node that has meanwhile become the leader).
 * link loss (`rollbackLatestCommand`): a RESULT_ERROR result is fabricated for the LATEST in-flight command only (a
   `LockResultCommand` with every other field zero for LOCK / UNLOCK / INIT, a `CallResultCommand` for CALL) and pushed
   through the same relay function; earlier in-flight commands get nothing. The link object then reconnects on its own
@@ -117,6 +120,7 @@ inductive Req where
   | lk (ct : CType) (m : TextMode) (c : LockCmd) (rep : Replica)
   | init (rid cid : Nat)
   | call (rid : Nat) (fw : Bool)       -- fw: LIST_LOCK / LIST_LOCKED / LIST_WAIT
+  | will (ct : CType) (c : LockCmd)    -- WILL_LOCK / WILL_UNLOCK (text: LOCK / UNLOCK … WILL 1), `ct` = what it runs as
   | other
   deriving DecidableEq, Repr, Inhabited
 
@@ -173,6 +177,8 @@ structure Conn where
   awaiting : Option (Nat × TextMode) := none
   /-- text: the peer went away while the handler is blocked -/
   half : Bool := false
+  /-- `willCommands` of the (inner) protocol object, in registration order -/
+  wills : List (CType × LockCmd) := []
   /-- ghost -/
   asked : List Nat := []
   /-- ghost -/
@@ -192,6 +198,7 @@ inductive Tag where
   | refused                     -- answered by a refusal fabricated here
   | probed                      -- answered from the node's own lock table (`CheckProbableLock`)
   | forwarded (again : Bool)
+  | stored                      -- a will command was queued on the connection
   | relayed | dropped | nolink
   | down
   deriving DecidableEq, Repr, Inhabited
@@ -294,6 +301,7 @@ def reqRid : Req → Option Nat
   | .lk _ _ c _ => some c.rid
   | .init rid _ => some rid
   | .call rid _ => some rid
+  | .will _ c => some c.rid
   | .other => none
 
 /-! ### a request -/
@@ -344,6 +352,7 @@ def classify (s : Node) (x : Conn) (short : Bool) (q : Req) : Branch :=
         match checkClient s x (some (rid, cid)) with
         | none => .initRefused rid cid
         | some (l, n, _) => .fwdInit rid cid l n
+    | .will _ _ => .ign      -- handled by `stepWill` before `classify` is consulted
     | .call rid fw =>
       match x.kind with
       | .text => .loc
@@ -395,12 +404,27 @@ def applyConn (s : Node) (c : Nat) (x : Conn) (rid : Option Nat) : Branch → Co
     ({ d.1 with link := some (setLatest l .call rid') },
      { tag := .forwarded d.2, fwd := (pre ++ [Fwd.call rid']).map (fun f => (c, f)) })
 
+/-- a will command: whatever the node's role and whichever protocol object the connection has, it is pushed onto the
+(inner) object's `willCommands` (binary: no answer; text: `+OK`) -/
+def willConn (s : Node) (c : Nat) (x : Conn) (ct : CType) (cmd : LockCmd) : Conn × Out :=
+  if x.closed then (x, { tag := .ign })
+  else if x.awaiting.isSome then (x, { tag := .busy })
+  else
+    let d := dispatched s x (some cmd.rid)
+    ({ d.1 with wills := x.wills ++ [(ct, cmd)] },
+     { tag := .stored, client := match x.kind with | .text => [(c, .textOk)] | .binary => [] })
+
 def stepRequest (s : Node) (c : Nat) (short : Bool) (q : Req) : Node × Out :=
   match s.conns[c]? with
   | none => (s, { tag := .ign })
   | some x =>
-    let r := applyConn s c x (reqRid q) (classify s x short q)
-    ({ s with conns := s.conns.set c r.1 }, r.2)
+    match q with
+    | .will ct cmd =>
+      let r := willConn s c x ct cmd
+      ({ s with conns := s.conns.set c r.1 }, r.2)
+    | _ =>
+      let r := applyConn s c x (reqRid q) (classify s x short q)
+      ({ s with conns := s.conns.set c r.1 }, r.2)
 
 /-! ### a frame from the leader -/
 
@@ -440,6 +464,18 @@ def relay (s : Node) (c : Nat) (x : Conn) (l : Link) (m : LeaderMsg) (early : Bo
       | none => ({ x with link := some l₁ }, [])
     | _ => (x, [])
 
+def willFwd (x : Conn) : List Fwd := x.wills.map (fun w => Fwd.lk w.1 w.2)
+
+/-- `Transparency*ServerProtocol.Close`: the will commands are WRITTEN TO THE LEADER over the link `CheckClient` yields
+(an INIT the connection announced goes first when the link has to be opened for it); without a link they are dropped.
+A connection that never got a wrapper runs them through the node's own engine instead (nothing is forwarded). -/
+def closeFwd (s : Node) (x : Conn) : List Fwd :=
+  if x.wrapped ∧ x.wills ≠ [] then
+    match checkClient s x (match x.kind with | .binary => x.initCmd | .text => none) with
+    | some (_, _, pre) => pre ++ willFwd x
+    | none => []
+  else []
+
 def stepLeaderMsg (s : Node) (c : Nat) (m : LeaderMsg) (early : Bool) : Node × Out :=
   match s.conns[c]? with
   | none => (s, { tag := .nolink })
@@ -448,7 +484,10 @@ def stepLeaderMsg (s : Node) (c : Nat) (m : LeaderMsg) (early : Bool) : Node × 
     | none => (s, { tag := .nolink })
     | some l =>
       let r := relay s c x l m early
-      ({ s with conns := s.conns.set c r.1 }, { tag := if r.2 = [] then .dropped else .relayed, client := r.2 })
+      -- a half-closed text connection closes when the answer cannot be written: its wills go out over the link it has
+      let fw := if r.1.closed ∧ !x.closed then willFwd x else []
+      ({ s with conns := s.conns.set c r.1 },
+       { tag := if r.2 = [] then .dropped else .relayed, client := r.2, fwd := fw.map (fun f => (c, f)) })
 
 /-! ### link loss -/
 
@@ -468,7 +507,9 @@ def dropLink (s : Node) (c : Nat) (x : Conn) (l : Link) : Conn × List (Nat × T
     | some m => relay s c x l m
     | none => (x, [])
   let x' := if r.1.closed then r.1 else { r.1 with link := none }
-  (x', r.2, if retries s then (openFwd l.initC).map (fun f => (c, f)) else [])
+  -- (a half-closed text connection closes here: its wrapper has no link any more, `CheckClient` may open a new one)
+  let fw := if r.1.closed ∧ !x.closed then closeFwd s { x with link := none } else []
+  (x', r.2, (if retries s then (openFwd l.initC).map (fun f => (c, f)) else []) ++ fw.map (fun f => (c, f)))
 
 def stepLinkDown (s : Node) (c : Nat) : Node × Out :=
   match s.conns[c]? with
@@ -508,7 +549,10 @@ def stepClose (s : Node) (c : Nat) : Node × Out :=
   | some x =>
     if x.closed then (s, { tag := .ign })
     else if x.awaiting.isSome then ({ s with conns := s.conns.set c { x with half := true } }, { tag := .deferred })
-    else ({ s with conns := s.conns.set c { x with closed := true, link := none } }, { tag := .ok })
+    else
+      let fw := closeFwd s x
+      ({ s with conns := s.conns.set c { x with closed := true, link := none } },
+       { tag := if fw = [] then .ok else .down, fwd := fw.map (fun f => (c, f)) })
 
 inductive Event where
   | accept (k : Kind)
